@@ -300,6 +300,49 @@ pub fn query_q3_case(rng: &mut Rng, name: &str, t: Sty) -> Case {
     }
 }
 
+/// ill-formed UTF-8 in a percent-escaped query value: never an error, the
+/// handler gets the text with U+FFFD in place of each maximal ill-formed part
+/// (`String::from_utf8_lossy`, computed here by the standard library)
+pub fn query_lossy_case(rng: &mut Rng) -> Case {
+    let tags = vec!["query:lossy-utf8".to_string()];
+    const PIECES: &[&[u8]] = &[
+        b"\xff", b"\xc3", b"\xc3\x28", b"\xe2\x82", b"\xe2\x28\xa1", b"\xed\xa0\x80", b"\xf0\x9f\x98", b"\xf4\x90\x80\x80",
+        b"\xc0\xaf", b"\x80", b"\xbf\xbf", b"\xf0\x28\x8c\xbc", b"\xf8\x88\x80\x80\x80", b"a", b"\xc3\xa9", b"\xf0\x9f\x98\x80", b" ", b"z",
+    ];
+    let mut bytes = vec![];
+    for _ in 0..rng.range(1, 5) {
+        bytes.extend_from_slice(*rng.pick(PIECES));
+    }
+    let intended = String::from_utf8_lossy(&bytes).to_string();
+    let mut qs = b"v=".to_vec();
+    for b in &bytes {
+        if b.is_ascii_alphanumeric() {
+            qs.push(*b);
+        } else {
+            qs.extend_from_slice(format!("%{:02X}", b).as_bytes());
+        }
+    }
+    let mut target = b"/q/str?".to_vec();
+    target.extend_from_slice(&qs);
+    let vals = vec![Fv::One(Sv::Str(intended)), Fv::Opt(None), Fv::One(Sv::Str(String::new()))];
+    let coq_in = format!("{} (Some {}) (Some {})", g_spec(&q3_spec(Sty::Str)), g_bytes(&qs), g_list(&vals, g_fv));
+    Case {
+        ctor: "CQuery".into(),
+        group: "query",
+        ep: "q_str".into(),
+        method: "GET".into(),
+        target,
+        ct: None,
+        body: None,
+        framing: Framing::ContentLength,
+        marker: None,
+        coq_in,
+        valid: true,
+        tags,
+        nontrivial: true,
+    }
+}
+
 pub fn qm_spec() -> Spec {
     vec![
         ("na-me".into(), Kind::Scalar(Sty::Str, Pres::Req)),
@@ -604,9 +647,22 @@ pub fn bj_intended(v: &BodyVals) -> Vec<(String, Fv)> {
     ])
 }
 
-/// serde_json called directly: the parser oracle of the model
+/// serde_json called directly, the way dropshot calls it: one value is
+/// deserialised off the front of the buffer and `Deserializer::end()` is NOT
+/// called.  This is the parser oracle of the model.
 pub fn bj_oracle(body: &[u8]) -> Option<Vec<(String, Fv)>> {
-    serde_json::from_slice::<ep::BJ>(body).ok().map(|b| b.fields())
+    use serde::Deserialize;
+    let mut de = serde_json::Deserializer::from_slice(body);
+    ep::BJ::deserialize(&mut de).ok().map(|b| b.fields())
+}
+/// is the WHOLE buffer one JSON text of the type (RFC 8259: ws value ws)?
+pub fn bj_strict(body: &[u8]) -> bool {
+    serde_json::from_slice::<ep::BJ>(body).is_ok()
+}
+pub fn tag_oracle(body: &[u8]) -> Option<Vec<(String, Fv)>> {
+    use serde::Deserialize;
+    let mut de = serde_json::Deserializer::from_slice(body);
+    ep::Tag::deserialize(&mut de).ok().map(|b| b.fields())
 }
 
 pub fn json_case(rng: &mut Rng) -> Case {
@@ -617,11 +673,12 @@ pub fn json_case(rng: &mut Rng) -> Case {
     let ct = ct_for(rng, "application/json", true, &mut tags);
     let framing = gen_framing(rng, body.len(), &mut tags);
     let coq_in = format!(
-        "{} {} {} {} (Some {})",
+        "{} {} {} {} {} (Some {})",
         g_hdr(&ct),
         CAP,
         g_list(&frames_of(&body, &framing), |f| g_bytes(f)),
         g_opt(&bj_oracle(&body), |s| g_struct(s)),
+        bj_strict(&body),
         g_struct(&bj_intended(&v))
     );
     Case {
@@ -874,7 +931,7 @@ pub fn all_case(rng: &mut Rng, uniq: &str, group: &'static str) -> Case {
     target.extend_from_slice(&qs);
     let btag_json = json_string(rng, &btag, &mut tags);
     let body = json_object(rng, &[("\"tag\"".to_string(), btag_json), ("\"n\"".to_string(), bn.to_string())]);
-    let oracle = serde_json::from_slice::<ep::Tag>(&body).ok().map(|t| t.fields());
+    let oracle = tag_oracle(&body);
     let framing = gen_framing(rng, body.len(), &mut tags);
     let ct = ct_for(rng, "application/json", true, &mut tags);
     let pv = vec![Fv::One(Sv::Str(ptag)), Fv::One(Sv::Int(pn.to_string()))];
@@ -1000,6 +1057,7 @@ pub fn gen_all(server: &Server, seed: u64, thorough: bool, out: &mut dyn Write) 
     }
     for _ in 0..20 * mul {
         cases.push(path_opt_case(&mut rng));
+        cases.push(query_lossy_case(&mut rng));
     }
     for _ in 0..110 * mul {
         cases.push(form_case(&mut rng));
